@@ -36,6 +36,56 @@ theorem deliver_shared_buffer_loses_and_duplicates :
     (DlShared.run {} [.spawn [(2, 769), (0, 460)], .run 0, .spawn [(53, 240), (55, 885)], .run 1, .run 1, .run 0]).out
       = [(2, 769), (53, 240), (55, 885), (55, 885)] := by decide
 
+/-! ### (1b) callbacks that panic or call runtime.Goexit; where the recovery sits -/
+
+/-- [for every recover scope, every behaviour of the callbacks, every interleaving]  when all goroutines are done,
+what was handed to callbacks is, batch by batch, that batch's own prefix up to its first fatal task: what a
+callback does can only affect LATER tasks of ITS OWN tick, never another tick (earlier, later, or concurrent). -/
+theorem deliver_each_batch_on_its_own (sc : Scope) (oc : Pair → Outcome) (evs : List DEv) (p : Pair)
+    (hfin : (Dl.runO sc oc {} evs).finished = true) :
+    ((Dl.runO sc oc {} evs).out).count p
+      = (((batches evs).map (deliveredOf fun q => survives sc (oc q))).flatten).count p := by
+  have := runO_count sc oc p evs {}
+  rw [finished_map_flatten _ rfl _ hfin] at this
+  simp only [List.count_nil, List.map_nil, List.flatten_nil, Nat.zero_add, Nat.add_zero] at this
+  exact this
+
+/-- [per-task recovery, the code that exists]  callbacks that PANIC (with an error value or anything else) affect
+the delivery of no other timer, in their tick or any other: every due pair is handed to a callback exactly once. -/
+theorem panicking_callback_affects_no_other_timer (oc : Pair → Outcome) (hno : ∀ q, oc q ≠ .goexit)
+    (evs : List DEv) (p : Pair) (hfin : (Dl.runO .perTask oc {} evs).finished = true) :
+    ((Dl.runO .perTask oc {} evs).out).count p = ((batches evs).flatten).count p := by
+  rw [deliver_each_batch_on_its_own .perTask oc evs p hfin]
+  have hk : ∀ q, survives .perTask (oc q) = true := by
+    intro q; cases h : oc q <;> simp [survives]; exact hno q h
+  have : (batches evs).map (deliveredOf fun q => survives .perTask (oc q)) = batches evs := by
+    rw [List.map_congr_left (fun b _ => deliveredOf_all _ hk b)]; simp
+  rw [this]
+
+/-- [Goexit, modelled as the code behaves]  a tick none of whose callbacks calls Goexit is delivered completely,
+whatever the callbacks of other ticks do (panic, Goexit, block). -/
+theorem goexit_affects_no_other_tick (oc : Pair → Outcome) (b : List Pair) (hb : ∀ x ∈ b, oc x ≠ .goexit) :
+    deliveredOf (fun q => survives .perTask (oc q)) b = b := by
+  apply deliveredOf_all_mem
+  intro x hx
+  cases h : oc x <;> simp [survives]
+  exact hb x hx h
+
+/-- witness (the real code, mode=sched `boom 2 goexit`): keys 1, 2, 3 due at one tick, the callback of key 2 calls
+Goexit: 3:30 is never delivered; key 4, due at the next tick, is. -/
+theorem goexit_loses_the_rest_of_its_tick :
+    (Dl.runO .perTask (fun p => if p.1 = 2 then .goexit else .ret) {}
+      [.spawn [(1, 10), (2, 20), (3, 30)], .run 0, .run 0, .run 0, .spawn [(4, 40)], .run 1, .run 0]).out
+      = [(1, 10), (2, 20), (4, 40)] := by decide
+
+/-- witness of seeded change C12-9 (one GoSafe around the loop instead of RunSafe per task): a PANIC then loses
+the rest of the tick as well. -/
+theorem recover_around_the_loop_loses_the_rest_on_panic :
+    (Dl.runO .aroundLoop (fun p => if p.1 = 2 then .panic else .ret) {}
+      [.spawn [(1, 10), (2, 20), (3, 30)], .run 0, .run 0, .run 0]).out = [(1, 10), (2, 20)]
+    ∧ (Dl.runO .perTask (fun p => if p.1 = 2 then .panic else .ret) {}
+      [.spawn [(1, 10), (2, 20), (3, 30)], .run 0, .run 0, .run 0]).out = [(1, 10), (2, 20), (3, 30)] := by decide
+
 /-! ### (2) the Cache with `WithLimit` -/
 
 /-- `WithLimit(limit)` configures an LRU list exactly for `limit > 0`; 0 and negative limits are no limit. -/
